@@ -165,7 +165,7 @@ def run(F, R, tier):
             R.ob("rt-line-provenance", "%s#%d %s" % (p, k, (lits[0][:40] if lits else "<formatted>")), ok,
                  "line argument: %s — %s" % (M.show(s)[:90], why), F.loc(f, t.get("line")))
     R.count("RTError::new call sites", n)
-    R.floor("RTError::new call sites", n, 85)
+    R.floor("RTError::new call sites", n, 60)
 
     # ---- (c) compiler side ---------------------------------------------------
     def is_token_line(s):
